@@ -178,6 +178,7 @@ struct c09_session : public vsim_session {
 int main(int argc, char **argv)
 {
   if (argc > 2 && std::string(argv[1]) == "scn") {
+    std::cout << std::unitbuf;   // what was printed before a crash must not be lost
     c09_session s(&std::cout);
     std::ifstream f(argv[2]);
     s.run(f);
